@@ -115,24 +115,38 @@ def binop(R, op, a, b):
         if isinstance(op, ast.Sub):
             return ZV(x - y, k)
         if isinstance(op, ast.Mult):
+            if getattr(R.w, 'uf_mul', False) and not z3.is_int_value(z3.simplify(x)) and \
+                    not z3.is_rational_value(z3.simplify(x)) and not z3.is_int_value(z3.simplify(y)) and \
+                    not z3.is_rational_value(z3.simplify(y)):
+                # product of two symbolic numbers as an uninterpreted function (sound over-approximation:
+                # only congruence is used); avoids non-linear arithmetic in the solver
+                srt = z3.RealSort() if k == 'real' else z3.IntSort()
+                return ZV(z3.Function('mul_' + k, srt, srt, srt)(x, y), k)
             return ZV(x * y, k)
         if isinstance(op, ast.FloorDiv) and k == 'int':
-            if not R.choose(y != 0):
+            if not R.total_access and not R.choose(y != 0):
                 raise PyRaise('ZeroDivisionError')
             return ZV(pyfloordiv(x, y), 'int')
         if isinstance(op, ast.Mod) and k == 'int':
-            if not R.choose(y != 0):
+            if not R.total_access and not R.choose(y != 0):
                 raise PyRaise('ZeroDivisionError')
             return ZV(x - y * pyfloordiv(x, y), 'int')
         if isinstance(op, ast.Div) and k == 'real':
-            if not R.choose(y != 0):
+            if not R.total_access and not R.choose(y != 0):
                 raise PyRaise('ZeroDivisionError')
+            if getattr(R.w, 'uf_mul', False) and not z3.is_rational_value(z3.simplify(y)) and \
+                    not z3.is_int_value(z3.simplify(y)):
+                # division by a symbolic number as an uninterpreted function (see uf_mul)
+                return ZV(z3.Function('div_real', z3.RealSort(), z3.RealSort(), z3.RealSort())(x, y), 'real')
             return ZV(x / y, 'real')
         if isinstance(op, ast.Pow) and isinstance(b, int) and b >= 0:
             r = z3.IntVal(1) if k == 'int' else z3.RealVal(1)
             for _ in range(b):
                 r = r * x
             return ZV(r, k)
+        if isinstance(op, ast.Pow) and 'pow_spec' in R.w.specs:
+            # x ** n with a symbolic exponent: the spec function pow_spec (left to the plan's spec module)
+            return R.call_spec(R.w.specs['pow_spec'], [ZV(R.z(a, 'real'), 'real'), ZV(R.z(b, 'real'), 'real')])
         raise OutOfReach('numeric op %s on %s,%s' % (type(op).__name__, ka, kb))
     # sequences
     if isinstance(op, ast.Add):
@@ -615,7 +629,9 @@ def builtin_attr(R, v, attr):
             # only `== 1` tests are meaningful; represent as 1 iff integral
             return ZV(z3.If(z3.IsInt(v.e), z3.IntVal(1), z3.IntVal(2)), 'int')
         if attr == 'numerator':
-            raise OutOfReach('numerator of symbolic fraction')
+            # the value itself when it is integral; an unconstrained integer otherwise
+            num = z3.Function('fraction_numerator', z3.RealSort(), z3.RealSort())
+            return ZV(z3.If(z3.IsInt(v.e), v.e, num(v.e)), 'real')
     if isinstance(v, str):
         if attr in ('startswith', 'endswith', 'split', 'join', 'format'):
             return BoundV(v, BuiltinV('str.' + attr, lambda R, a, k: _str_method(attr, a)))
